@@ -2,6 +2,7 @@ package exec
 
 import (
 	"fmt"
+	"html"
 	"reflect"
 	"sort"
 	"strconv"
@@ -781,7 +782,7 @@ func (x *dotExtractor) groupNode(st *dotStmt) {
 		case "shape":
 		case "label":
 			haveLabel = true
-			if !ok || a.Val.Kind != idHTML || a.Val.Text != ref.tstr+fontOpen+"Group: "+ref.group+fontClose {
+			if !ok || a.Val.Kind != idHTML || !htmlLabelIs(a.Val.Text, ref.tstr, "Group: "+ref.group) {
 				x.d.LabelsOk = false
 			}
 		case "color":
@@ -795,6 +796,36 @@ func (x *dotExtractor) groupNode(st *dotStmt) {
 	}
 	x.groupAt[name] = len(x.d.Groups)
 	x.d.Groups = append(x.d.Groups, g)
+}
+
+// htmlLabelIs reports whether the HTML-like label got shows the text first, followed — if second is not empty — by
+// second in the small font.  Text inside an HTML-like label must not contain raw angle brackets, and an ampersand must
+// start a character reference; escaped or not, what counts is the text the label displays.
+func htmlLabelIs(got, first, second string) bool {
+	if second == "" {
+		return htmlTextIs(got, first)
+	}
+	i := strings.Index(got, fontOpen)
+	if i < 0 || !strings.HasSuffix(got, fontClose) || len(got) < i+len(fontOpen)+len(fontClose) {
+		return false
+	}
+	return htmlTextIs(got[:i], first) && htmlTextIs(got[i+len(fontOpen):len(got)-len(fontClose)], second)
+}
+
+func htmlTextIs(raw, want string) bool {
+	if strings.ContainsAny(raw, "<>") {
+		return false
+	}
+	for i := 0; i < len(raw); i++ {
+		if raw[i] != '&' {
+			continue
+		}
+		j := strings.IndexByte(raw[i:], ';')
+		if j < 2 || html.UnescapeString(raw[i:i+j+1]) == raw[i:i+j+1] {
+			return false // a bare ampersand, or not a character reference
+		}
+	}
+	return html.UnescapeString(raw) == want
 }
 
 // topEdge handles group member edges and constructor parameter edges.
@@ -900,14 +931,14 @@ func (x *dotExtractor) cluster(st *dotStmt) {
 				x.problem(s, "result node %q must have exactly the label attribute", s.Node.Text)
 			}
 			label, has := s.attr("label")
-			want := ref.tstr
+			second := ""
 			switch {
 			case ref.name != "":
-				want += fontOpen + "Name: " + ref.name + fontClose
+				second = "Name: " + ref.name
 			case ref.group != "":
-				want += fontOpen + "Group: " + ref.group + fontClose
+				second = "Group: " + ref.group
 			}
-			if !ok || !has || label.Kind != idHTML || label.Text != want {
+			if !ok || !has || label.Kind != idHTML || !htmlLabelIs(label.Text, ref.tstr, second) {
 				x.d.LabelsOk = false
 			}
 		default:
